@@ -126,7 +126,7 @@ CLAIMED = {
         'predicate says not cancelled and always answer with a result row; jobs_before_insert signals exactly for cancelled groups; cancel_job_group / cancel_batch are idempotent and change grp_cancelled exactly on the subtree. '
         'Python side (embedded SQL evaluated by sqlvc): _create_job_group creates a group only beneath a non-cancelled parent, writes exactly the own row plus every self-and-ancestors row of the parent one level up, and rejects exactly too deep nestings; '
         'commit_update and _create_batch_update.update refuse a request as cancelled iff the ROOT group of the batch is marked and commit / open an update only when it is not. '
-        'Known finding: is_job_cancelled yields one subquery row per cancelled ancestor (MySQL error 1242 under two cancelled groups on one path).',
+        'Known finding: is_job_cancelled yields one subquery row per cancelled ancestor (MySQL error 1242 under two cancelled groups on one path). cancel_job_group_in_db admits only the root group or a group whose own update is committed (SQL-structural obligation on its existence check).',
         note=COMMON_NOTE + 'Assumed: each procedure call is atomic (serialisable isolation; justified by the lock-discipline obligations where stated); MySQL NULL/boolean semantics as encoded in vc/sqlvc.py; integer column widths sufficient; SQL cannot be executed in this sandbox so counter-models are rows (VIOLATION ... no-failing-input-found). ' + 'Structural invariants A1 (own row, root has no other ancestor) and A2 (row count of a group = level of its root row + 1) of job_group_self_and_ancestors are preconditions; A2 is shown preserved by _create_job_group. Python side: _create_job_group, cancel_job_group_in_db, commit_update and _create_batch_update.update are under pyvc contracts with their SQL evaluated semantically (fetchone = some row of the result set); the commit gate is advisory (read outside the commit transaction); the scheduler/canceller selection queries are listed undecided.',
         technique='function/procedure contracts against spec predicates on the real SQL text, sqlvc -> z3',
         engine='sqlvc',
@@ -277,7 +277,7 @@ CLAIMED = {
         'Local destination: LocalAsyncFS.create truncates, multi_part_create leaves an empty file whatever was there and hands path/part count on, create_part opens without truncating and seeks to start; RouterAsyncFS forwards unchanged; every copy_part_size is a positive constant. '
         'Destination rules and documented errors: Transfer.__init__, Copier._dest_type, SourceCopier._full_dest, copy_as_file, the checks of copy_as_dir and the missing-source rule of copy against the decision table of the property text. '
         'Locations (string contracts): LocalAsyncFS._get_path - a plain path names itself whatever characters it contains, file://[localhost] loses exactly that prefix - and every LocalAsyncFS operation resolves its location through it; url_join / url_basename treat a scheme-less location as a path (genuine defect fixed in /repo 107e6cea0). '
-        'Directory copies: listed prefix = source + "/", recursive listing, create_copies (one attempt under retry_transient_errors) walks only a listing nobody started to consume, yields one copy_source thunk per listed entry in order and leaves no started listing behind on any exceptional exit; copy_source copies src+REL to url_join(full_dest, REL) exactly once; the tail runs every thunk.',
+        'Directory copies: listed prefix = source + "/", recursive listing, create_copies (one attempt under retry_transient_errors) walks only a listing nobody started to consume, yields one copy_source thunk per listed entry in order and leaves no started listing behind on any exceptional exit; copy_source copies src+REL to url_join(full_dest, REL) exactly once; the tail runs every thunk. Local file system: file-or-directory and sizes are decided through symbolic links in every non-deleting operation (AST), replayed by native symlink scenarios (linked directory inside a source tree; destination that is a link to a directory).',
         note=COMMON_NOTE + 'Byte contents are abstract: positions, lengths and chunk identity are tracked. Assumed: stream read/write contracts (C23 decides the ranged reads), bounded_gather2 runs every thunk once (C20), builtin open() mode semantics, the barrier rely between the two halves of a source. '
         'Also assumed: urlparse splits a scheme-less url into path + (; ? # rest); a recursive listing hands out every file below src once, named src + relative path; retry_transient_errors re-calls only after a raise (C21). '
         'Not covered: the directory walk itself (async generator over os.scandir), file:// locations containing ; ? # (observation recorded), report aggregation, lists of transfers, cloud multi-part uploads. Thorough tier adds a BOUNDED native cross-check of the real Copier on temporary files (never counted as proved).',
@@ -335,7 +335,7 @@ CLAIMED = {
         '(2c) get_billing_projects, get_billing_project and ui_get_billing_limits ask the billing-project listing helper without a user name only for a developer or for the user named exactly auth (`x in \'auth\'` is modelled as the substring test it is), otherwise with the caller\'s own name. '
         '(2d) Reads of batch-scoped handlers: _get_job_record answers only the job (batch_id, job_id) it was asked for; get_job_container_log with the real _get_job_container_log executed in place asks the worker / the log store only for the checked batch, the job of the request and a container job_tasks_from_spec answers (only input / main / output); '
         '_query_batch_jobs_for_billing pins jobs.batch_id to the checked id on every path (real f-string, real condition list), its follow-up statements as well; every caller chain of these helpers starts at the never-rebound batch_id parameter of a batch-scoped route handler. '
-        '(3) Every @routes.<verb>(path) handler and every registration in run() is classified by a data-driven policy derived from the property text (exempt / batch-scoped / owner-only / new-batch / billing-administration / other); exactly one class each, protection of the class present with only transparent decorators above it, closed-world checks on the table object, the authenticator and the wrapper composition.',
+        '(3) Every @routes.<verb>(path) handler and every registration in run() is classified by a data-driven policy derived from the property text (exempt / batch-scoped / owner-only / new-batch / billing-administration / other); exactly one class each, protection of the class present with only transparent decorators above it, closed-world checks on the table object, the authenticator and the wrapper composition. get_authenticator: the authenticator that trusts every caller is built only where HAIL_TERRA has a non-empty value (unset or empty: callers are checked against the auth service).',
         note=COMMON_NOTE + 'Assumed: user names are text and never None; the listing helpers of batch/utils.py restrict to `user` exactly when a non-empty name is passed; the log sinks build their URL / path from exactly the ids and container name they are handed; a top-level WHERE conjunct `col = %s` restricts every answered row. Assumed: what _fetch_userdata answers (auth service) is an oracle returning None or a UserData mapping; aiohttp dispatch, functools.wraps and the middlewares are transparent; strings are integer codes compared for equality (collations not modelled); reads of one request see one database state; handler/helper composition is by call name. '
         'Not decided: listing endpoints\' dynamically built queries beyond their scope condition, the remaining queries of batch-scoped handlers (job groups, attempts, resource usage, cancel / delete procedures), the driver\'s routes, TrustedSingleTenantAuthenticator. '
         'One fix: commit (update-token lookup of _create_batch_update had no owner conjunct: a non-owner replaying a token could commit the owner\'s update; replayed on the real handler) and one known finding (GET /metrics is served without authentication, registered outside the route table).',
